@@ -141,6 +141,24 @@ class Tree:
         inl = Inliner(self, set(json.loads(spec.read_text())))
         inl.run()
         self.inlined = inl.log
+        self._normalise_bodies()
+
+    def _normalise_bodies(self):
+        from .normalise import inline_aliases, loops_to_comprehensions
+
+        self.normalised: List[str] = []
+        for f in list(self.funcs.values()):
+            if f.module.is_test():
+                continue
+            n = loops_to_comprehensions(f.node)
+            # inline_aliases needs many CFG builds: only for functions that have candidate assignments
+            names = inline_aliases(f.node, max_rounds=12)
+            if n or names:
+                self.normalised.append(f"{f.key}: {n} loop(s) -> comprehension, aliases {names}")
+        for m in self.modules.values():
+            for parent in ast.walk(m.tree):
+                for child in ast.iter_child_nodes(parent):
+                    child._parent = parent
 
     # --- parameter names are not semantics: rename them back to the names the rules were written with
     def _canonical_params(self):
